@@ -36,6 +36,7 @@ thread_local! {
     static TRACE: RefCell<Option<Vec<Event>>> = const { RefCell::new(None) };
     static CHALLENGE_COUNT: Cell<usize> = const { Cell::new(0) };
     static ZERO_AT: Cell<Option<usize>> = const { Cell::new(None) };
+    static NEXT_LABEL: Cell<Option<&'static str>> = const { Cell::new(None) };
 }
 
 pub(crate) fn fresh_id() -> u64 {
@@ -79,14 +80,21 @@ pub fn zero_challenge_at(n: Option<usize>) {
     ZERO_AT.with(|z| z.set(n));
 }
 
+pub(crate) fn label_next(l: &'static str) {
+    NEXT_LABEL.with(|n| n.set(Some(l)));
+}
+
 #[inline]
 pub(crate) fn emit(tid: u64, op: impl FnOnce() -> Op) {
-    let label: &'static str = "merlin";
+    let mut label: &'static str = "merlin.other";
     TRACE.with(|t| {
         if let Some(v) = t.borrow_mut().as_mut() {
             v.push(Event { tid, op: op() });
         }
     });
+    if let Some(l) = NEXT_LABEL.with(|n| n.take()) {
+        label = l;
+    }
     sched(label);
 }
 
@@ -102,6 +110,7 @@ pub(crate) fn after_challenge(tid: u64, label: &'static [u8], dest: &mut [u8]) {
             *b = 0;
         }
     }
+    NEXT_LABEL.with(|n| n.set(Some("merlin.challenge")));
     emit(tid, || Op::Challenge {
         label: label.to_vec(),
         out: dest.to_vec(),
